@@ -305,11 +305,18 @@ impl Check for C09 {
             }
         }
         // run falcon
+        // a monotone analysis is also run with `force` (states joined instead of compared) in one case of three: the
+        // answer must be the same least solution within the same default budget
+        let force = monotone && rng.chance(1, 3);
+        if force {
+            ctx.count("monotone_runs_with_force");
+        }
         let got: Result<Result<BTreeMap<Loc, usize>, Error>, PanicInfo> = if forward {
-            guard(|| fixed_point::fixed_point_forward(&an, &f).map(|m| m.into_iter().map(|(k, v)| (k.function_location().clone(), v.id)).collect()))
+            guard(|| fixed_point::fixed_point_forward_options(&an, &f, force, 250_000).map(|m| m.into_iter().map(|(k, v)| (k.function_location().clone(), v.id)).collect()))
         } else {
-            guard(|| fixed_point::fixed_point_backward(&an, &f).map(|m| m.into_iter().map(|(k, v)| (k.function_location().clone().into(), v.id)).collect()))
+            guard(|| fixed_point::fixed_point_backward_options(&an, &f, force).map(|m| m.into_iter().map(|(k, v)| (k.function_location().clone().into(), v.id)).collect()))
         };
+        let dir = if force { if forward { "forward+force" } else { "backward+force" } } else { dir };
         ctx.eval();
         let detail = |extra: serde_json::Value| json!({"function": fj(), "lattice": lat.name, "direction": dir, "transfer": format!("{:?}", an.tf), "difference": extra});
         match got {
